@@ -57,3 +57,38 @@ Theorem C20_probe_cache_transparent e envs n :
   PlatModel.run_probes None (e :: envs) = e :: map (fun _ => e) envs /\ PlatModel.run_probes None (repeat e n) = repeat e n.
 Proof. exact (C16.C16_cache_transparent e envs n). Qed.
 Print Assumptions C20_probe_cache_transparent.
+
+(* ---------------- further order-insensitive inputs ---------------- *)
+Require C08 C14.
+(* parse_tag: the order of the dotted parts of a compressed tag does not matter (the result is a frozenset: the same tags, as a multiset) *)
+Lemma flat_map_perm_pointwise {A B} (f g : A -> list B) l : (forall x, Permutation (f x) (g x)) -> Permutation (flat_map f l) (flat_map g l).
+Proof. intros H. induction l as [|x xs IH]; cbn [flat_map]; [constructor|]. apply Permutation_app; [apply H | exact IH]. Qed.
+Theorem C20_parse_tag_parts_order_irrelevant i i' a a' p p' : Permutation i i' -> Permutation a a' -> Permutation p p' ->
+  Permutation (WheelModel.tag_product i a p) (WheelModel.tag_product i' a' p').
+Proof.
+  intros Hi Ha Hp. unfold WheelModel.tag_product.
+  transitivity (flat_map (fun x => flat_map (fun y => map (fun z => WheelModel.mk_tag x y z) p') a') i).
+  - apply flat_map_perm_pointwise. intros x.
+    transitivity (flat_map (fun y => map (fun z => WheelModel.mk_tag x y z) p') a).
+    + apply flat_map_perm_pointwise. intros y. now apply Permutation_map.
+    + now apply Permutation_flat_map.
+  - now apply Permutation_flat_map.
+Qed.
+Print Assumptions C20_parse_tag_parts_order_irrelevant.
+(* filter() of a set: the order in which the members are chained (iteration order of the frozenset) does not matter *)
+Theorem C20_set_filter_order_independent S S' arg xs : Permutation (SetsModel.ms S) (SetsModel.ms S') -> SetsModel.ov S = SetsModel.ov S' ->
+  SetsBridge.wf_set S -> SetsFilter.wf_items xs -> SetsModel.set_filter_v S arg xs = SetsModel.set_filter_v S' arg xs.
+Proof. exact (C06.C06_chain_order_irrelevant S S' arg xs). Qed.
+Print Assumptions C20_set_filter_order_independent.
+(* str(Requirement): extras as a set, clauses in any order (no two canonically equal clauses: finding D33 otherwise) *)
+Theorem C20_requirement_str_order_independent a b :
+  ReqModel.q_name a = ReqModel.q_name b -> (forall e, In e (ReqModel.q_extras a) <-> In e (ReqModel.q_extras b)) ->
+  Permutation (ReqModel.q_specs a) (ReqModel.q_specs b) -> NoDup (map ReqModel.rq_ckey (ReqModel.q_specs a)) ->
+  ReqModel.q_url a = ReqModel.q_url b -> ReqModel.q_marker a = ReqModel.q_marker b -> ReqModel.req_str a = ReqModel.req_str b.
+Proof. exact (C08.C08_str_deterministic a b). Qed.
+Print Assumptions C20_requirement_str_order_independent.
+(* Metadata built WITH validation: reads still return the conversion of the original raw values, whatever order the fields were validated in *)
+Theorem C20_metadata_reads_after_validation O data ord s ks : MetaFacts.well_typed data -> MetaModel.from_raw_ord ord O true data = MetaModel.FOk s ->
+  MetaModel.reads O s ks = map (fun k => MetaModel.compute O k (MetaBase.lookup k data)) ks.
+Proof. exact (C17.C17_reads_after_validation O data ord s ks). Qed.
+Print Assumptions C20_metadata_reads_after_validation.
